@@ -14,6 +14,7 @@ pub mod probes;
 pub mod runner;
 pub mod shapes;
 pub mod shared;
+pub mod stdvals;
 pub mod steps;
 pub mod tracked;
 pub mod variants;
